@@ -10,7 +10,22 @@ import (
 
 // fixed schema pool; values are drawn per document
 func poolDoc(r *rng, schema byte) []elem {
-	i := func() *val { return &val{T: 0x12, I: r.i64Value(nil, valueMode(r.intn(3)))} }
+	// a quarter of the int64 values repeat the value drawn at the same position of the previous pool document: a
+	// metric that does not move between two samples (a zero delta), also across a refused sample in between
+	pos := 0
+	i := func() *val {
+		x := r.i64Value(nil, valueMode(r.intn(3)))
+		if pos < len(r.poolPrev) && r.chance(1, 4) {
+			x = r.poolPrev[pos]
+		}
+		if pos < len(r.poolPrev) {
+			r.poolPrev[pos] = x
+		} else {
+			r.poolPrev = append(r.poolPrev, x)
+		}
+		pos++
+		return &val{T: 0x12, I: x}
+	}
 	switch schema {
 	case 'A':
 		return []elem{{"x", i()}, {"y", i()}}
@@ -83,6 +98,8 @@ func c07Op(r *rng, sym byte) hop {
 		return hop{op: 'A', doc: poolDoc(r, 'Z')}
 	case 'u':
 		return hop{op: 'A', raw: []byte{0x03, 0x00, 0x00}}
+	case 'v': // a birch document that cannot be encoded: refused while its elements are walked
+		return hop{op: 'A', raw: []byte{0x76}, birchBad: true}
 	case 'r':
 		return hop{op: 'R'}
 	case 'x':
@@ -165,6 +182,29 @@ func init() {
 					}
 					c := hcase{kind: kind, n: n, probe: true}
 					c.wrapper = pickWrapper(r, kind)
+					for i := 0; i < len(h); i++ {
+						c.ops = append(c.ops, c07Op(r, h[i]))
+					}
+					id++
+					runHistory(ho, id, c)
+				})
+			}
+		}
+		// 1c. a document refused only while its elements are walked (as the very first sample, after a Reset, behind
+		//     accepted ones): every history up to length 3 (thorough 4) over {a, v, r, x, f} that holds one
+		for _, kind := range compressingKinds {
+			for _, n := range ns {
+				l := 3
+				if thorough {
+					l = 4
+				}
+				enumerate("avrxf", l, func(h string) {
+					// (not the streaming dynamic collector: it takes the document for a schema change and flushes its open
+					// chunk before the refusal, which the model's refusal of unreadable bytes does not describe)
+					if !strings.Contains(h, "v") || kind == "sdyn" {
+						return
+					}
+					c := hcase{kind: kind, n: n, probe: true}
 					for i := 0; i < len(h); i++ {
 						c.ops = append(c.ops, c07Op(r, h[i]))
 					}
